@@ -199,7 +199,7 @@ def make_case(ctx, idx):
         scale_tree(node, sc)
     k = rng.choice([1, 2, 3]) if params else 0
     prow = [{p: [Fr(rng.randint(0, 16), 16)] for p in params} for _ in range(max(k, 1))]
-    n = ctx.scale(40, 80)
+    n = ctx.scale(36, 80)
     rows = []
     for i in range(n):
         env = prow[i % len(prow)]
@@ -336,7 +336,7 @@ def boundary_acceptance(case, rep):
         pr = tp.spaces.Points(torch.tensor([[float(Fr(env[p][0])) for p in params] for env in envs], dtype=torch.float32), pspace)
     else:
         pr = tp.spaces.Points.empty()
-    n = 25
+    n = 16
     torch.manual_seed(case["id"])
     hows = ["random", "grid", "random-n1"]
     if len(envs) <= 1:
@@ -345,7 +345,7 @@ def boundary_acceptance(case, rep):
         try:
             if how == "random-n1":
                 # ONE point per parameter row (the path a product domain takes for its first factor), several draws
-                parts = [common.call_with_timeout(3, B.sample_random_uniform, n=1, params=pr) for _ in range(8)]
+                parts = [common.call_with_timeout(3, B.sample_random_uniform, n=1, params=pr) for _ in range(6)]
                 if any(len(p_) != max(1, len(envs)) for p_ in parts):
                     rep.count("bdry-sampler-wrong-count:" + how)
                     continue
@@ -365,7 +365,7 @@ def boundary_acceptance(case, rep):
             rep.count("bdry-sampler-raised:" + how)   # sampling defects belong to C01/C02
             continue
         if how == "random-n1":
-            rp = tp.spaces.Points(pr.as_tensor.repeat(8, 1), pr.space) if params else pr
+            rp = tp.spaces.Points(pr.as_tensor.repeat(6, 1), pr.space) if params else pr
         elif how.endswith("density"):
             if len(s) == 0:
                 continue
@@ -940,7 +940,7 @@ def run(ctx, rep, cases=None):
                 "parameter dependence; distinct = distinct (expression, rows)")
     fresh = cases is None
     if cases is None:
-        cases = [make_case(ctx, i) for i in range(ctx.scale(170, 2500))]
+        cases = [make_case(ctx, i) for i in range(ctx.scale(150, 2500))]
     lines, spans = [], []
     for cs in cases:
         ls = driver_lines(cs)
